@@ -2,7 +2,9 @@
 (***************************************************************************)
 (* C11 -- trace validation: executions recorded from the real list views   *)
 (* (harness/props/c11.py) are checked against the reference ListView.     *)
-(* A trace is [mode, lay, events]: lay is the token layout of the field    *)
+(* A trace is [mode, keep, lay, events] (keep: the views were made with   *)
+(* discard_comments_on_read=False, values carry their comment lines):      *)
+(*  lay is the token layout of the field    *)
 (* the harness generated (long random layouts, up to 8 values); an event   *)
 (* is [op, v, w, i, res, obs, doc]: the call, its arguments (values are    *)
 (* token sequences, see ListView), "ok"/"ValueError", the value list the   *)
@@ -30,7 +32,8 @@ Tr == Traces[tid]
 
 TInit == /\ tid \in 1..Len(Traces)
          /\ l = 1
-         /\ vals = Split(Traces[tid].mode, Traces[tid].lay)
+         /\ vals = IF Traces[tid].keep THEN SplitKeep(Traces[tid].mode, Traces[tid].lay)      \* discard_comments_on_read=False
+                   ELSE Split(Traces[tid].mode, Traces[tid].lay)
          /\ saved = vals
          /\ tail = "none" /\ res = "ok"
 
@@ -47,7 +50,8 @@ TStep == /\ l <= Len(Tr.events)
                \/ e.op \in {"sep", "sep0"} /\ Tr.mode = "cm" /\ AAppendSep /\ UNCHANGED saved
                \/ e.op = "nl"        /\ (IF tail = "none" THEN AAppendNl ELSE Either(e)) /\ UNCHANGED saved
                \/ e.op = "cmt"       /\ AAppendCmt /\ UNCHANGED saved
-               \/ e.op = "reformat"  /\ AReformat /\ UNCHANGED saved
+               \/ e.op \in {"reformat", "noreformat", "vfmt", "vfmtf"} /\ AReformat /\ UNCHANGED saved
+               \/ e.op = "abort"     /\ vals' = saved /\ tail' = "none" /\ res' = "ok" /\ UNCHANGED saved   \* AAbort: nothing written
                \/ e.op = "close"     /\ IF e.res = "ok"
                                         THEN saved' = vals /\ Same("ok")
                                         ELSE /\ e.res = "ValueError" /\ CloseMayRefuse
